@@ -34,6 +34,7 @@ class Hoister:
     hoists_what: str
     refusal_flags: tuple[str, ...] = ()
     exceptions: dict | None = None     # position -> reason (frozen, confirmed by reading)
+    mask_methods: tuple[str, ...] = () # methods of the context object that return a refusing copy of it
 
 
 POSITIONS = {
@@ -59,7 +60,8 @@ def universe_check(ctx: Ctx):
                   'the position is no longer lowered to a conditionally evaluated construct: revisit the mask universe')
 
 
-def _masked(arg: ast.AST | None, flags: tuple[str, ...], incoming: str) -> tuple[bool, str]:
+def _masked(arg: ast.AST | None, flags: tuple[str, ...], incoming: str, fn: ast.AST | None = None,
+            mask_methods: tuple[str, ...] = ()) -> tuple[bool, str]:
     if arg is None:
         return False, 'no context argument'
     if isinstance(arg, ast.Constant) and arg.value is None:
@@ -68,6 +70,17 @@ def _masked(arg: ast.AST | None, flags: tuple[str, ...], incoming: str) -> tuple
         for kw in arg.keywords:
             if kw.arg in flags and isinstance(kw.value, ast.Constant) and kw.value.value is True:
                 return True, f'sets the refusal flag {kw.arg}'
+        if isinstance(arg.func, ast.Attribute) and arg.func.attr in mask_methods:
+            return True, f'derives a refusing context with .{arg.func.attr}(...)'
+    if isinstance(arg, ast.IfExp):
+        # `ctx if i == 0 else inner`: masked when the non-first alternative is
+        a, _ = _masked(arg.orelse, flags, incoming, fn, mask_methods)
+        if a:
+            return True, 'first item keeps the preamble, later ones are masked'
+    if isinstance(arg, ast.Name) and fn is not None and arg.id != incoming:
+        defs = [s.value for s in walk_no_nested(fn) if isinstance(s, ast.Assign) and any(isinstance(t, ast.Name) and t.id == arg.id for t in s.targets)]
+        if defs and all(_masked(d, flags, incoming, None, mask_methods)[0] for d in defs):
+            return True, f'`{arg.id}` is a refusing context'
     return False, f'passes `{norm(arg)}`'
 
 
@@ -87,7 +100,7 @@ def position_masked(repo, h: Hoister, pos: str) -> tuple[bool, str, ast.AST | No
                 continue
             for k in calls_in(f):
                 if call_name(k) in ('self._visit_expr', 'super()._visit_expr', 'super()._visit_naryop') and len(k.args) >= 2:
-                    okk, why = _masked(k.args[1], h.refusal_flags, 'ctx')
+                    okk, why = _masked(k.args[1], h.refusal_flags, 'ctx', f, h.mask_methods)
                     if okk:
                         return True, why, f
         return False, f'{h.cls} has no And/Or-specific visit that masks later operands', (own[0] if own else c)
@@ -101,9 +114,9 @@ def position_masked(repo, h: Hoister, pos: str) -> tuple[bool, str, ast.AST | No
         for k in calls_in(f):
             cn = call_name(k)
             if cn == 'self._visit_expr' and k.args and norm(k.args[0]) == sub:
-                found = _masked(k.args[1] if len(k.args) > 1 else None, h.refusal_flags, incoming)
+                found = _masked(k.args[1] if len(k.args) > 1 else None, h.refusal_flags, incoming, f, h.mask_methods)
             elif cn == f'super().{meth}' and len(k.args) >= 2:
-                found = _masked(k.args[1], h.refusal_flags, incoming)
+                found = _masked(k.args[1], h.refusal_flags, incoming, f, h.mask_methods)
         if found is None:
             # comprehension spelling: [self._visit_expr(x, None) for x in ...] is not the element; look for any visit of the sub text
             return False, f'{meth} does not visit `{sub}` through a recognisable call', f
@@ -128,6 +141,14 @@ def hoist_mask_rule(hoisters: list[Hoister], rule_prefix: str):
                         read = True
                 ctx.check(read, h.relpath, c, h.cls, f'refusal flag {fl} is consulted by a refusal',
                           'the flag is set but never read: the position is not actually refused')
+            for mm in h.mask_methods:
+                sets = False
+                for n in ast.walk(repo.module(h.relpath).tree):
+                    if isinstance(n, ast.FunctionDef) and n.name == mm:
+                        txt = norm(n, 4000)
+                        sets = any(fl in txt for fl in h.refusal_flags) and 'return' in txt
+                ctx.check(sets, h.relpath, c, h.cls, f'context method .{mm}() produces a context with a refusal flag set',
+                          'the masking method no longer sets a flag the refusal reads')
             for pos, (meth, subs, why) in POSITIONS.items():
                 construct = f'{h.cls}: {pos} masked ({h.hoists_what})'
                 if h.exceptions and pos in h.exceptions:
